@@ -72,6 +72,7 @@ def load_metadata(username="master"):
             timestamp = os.path.getmtime(user_file(filename, username))
             new_cache[filename] = {
                 'imports': data['imports'],
+                'imports_timestamp': timestamp,
                 'description': data['description']
             }
     theory_cache[username] = new_cache
@@ -127,18 +128,32 @@ def get_import_order(filenames, username="master"):
         load_metadata(username)
 
     depend_list = []
-    def dfs(name):
+    def dfs(name, path):
         if name in depend_list:
             return
-        else:
-            for import_name in theory_cache[username][name]['imports']:
-                dfs(import_name)
-            depend_list.append(name)
+        if name in path:
+            cycle = path[path.index(name):] + (name,)
+            raise TheoryException("Cycle in imports: %s" % (', '.join(cycle)))
+        for import_name in get_imports(name, username):
+            dfs(import_name, path + (name,))
+        depend_list.append(name)
     
     for name in filenames:
-        dfs(name)
+        dfs(name, tuple())
 
     return depend_list
+
+def get_imports(filename, username="master"):
+    """Return the list of imports of the given theory, re-reading it if
+    the file has changed since the list was read.
+
+    """
+    cache = theory_cache[username][filename]
+    timestamp = os.path.getmtime(user_file(filename, username))
+    if cache.get('imports_timestamp') != timestamp:
+        cache['imports'] = load_json_data(filename, username)['imports']
+        cache['imports_timestamp'] = timestamp
+    return cache['imports']
 
 def load_theory_cache(filename, username="master"):
     """Load the content of the given theory into cache.
@@ -174,19 +189,15 @@ def load_theory_cache(filename, username="master"):
         from imperative import imp
     theory.thy = prev_thy
 
-    # Read the file first: its list of imports may have changed.
+    # Read the file. Its list of imports, and those of the theories it imports,
+    # may have changed: get_import_order re-reads them as needed and reports
+    # a cycle among the theories reached from here.
     data = load_json_data(filename, username)
-    cache['imports'] = data['imports']
-    check_topological_sort(username)
+    depend_list = get_import_order(get_imports(filename, username) + [filename], username)[:-1]
 
-    # Bring all imported theories up to date. This may in turn change their
-    # lists of imports, so repeat until the import order is stable.
-    while True:
-        depend_list = get_import_order(cache['imports'], username)
-        for prev_name in depend_list:
-            load_theory_cache(prev_name, username)
-        if depend_list == get_import_order(cache['imports'], username):
-            break
+    # Bring all imported theories up to date.
+    for prev_name in depend_list:
+        load_theory_cache(prev_name, username)
     import_stamps = [(prev_name, theory_cache[username][prev_name]['timestamp'])
                      for prev_name in depend_list]
 
@@ -246,7 +257,7 @@ def load_theory(filename: str, *, limit=None, username="master"):
     cache = theory_cache[username][filename]
 
     # Load imported theories
-    depend_list = get_import_order(cache['imports'], username)
+    depend_list = get_import_order(get_imports(filename, username), username)
 
     theory.thy = theory.EmptyTheory()
     for prev_name in depend_list:
